@@ -7,6 +7,7 @@ matrices (B == transpose(A)), for sizes n = 0..6 and 20 and two settings of
 the passive data, under gfortran -fcheck=all.  Oracle B: PSyAD's own generated
 harness is compiled, run and must print PASSED.
 """
+import hashlib
 import os
 import random
 import re
@@ -141,6 +142,7 @@ def evaluate(spec, feats, part, wd):
         part.count("accepted_with:" + f)
     base["adjoint"] = ad
     shutil.rmtree(wd, ignore_errors=True)
+    shutil.rmtree(wd + "_q", ignore_errors=True)   # real(16) build, lazy
     os.makedirs(wd)
     # --- compile, one unit at a time so the culprit is known ---------------
     ok, err = fx.compile_f(wd, [("tl_k.f90", text)], compile_only=True)
@@ -230,7 +232,19 @@ def evaluate(spec, feats, part, wd):
                    for n in SIZES):
                 part.count("loops_zero_trip_at_some_judged_size")
     # --- oracle B: PSyAD's own harness ---------------------------------------
-    ok, err = fx.compile_f(wd, [("harness.f90", test)], exe="harness.x",
+    # PSyAD's harness never seeds RANDOM_NUMBER, so gfortran would draw new
+    # data on every run; one call to a seeding routine is inserted before the
+    # first draw so that the same VERIF_SEED gives the same run
+    seed = int(hashlib.sha1(text.encode()).hexdigest()[:7], 16)
+    hsrc = test.replace("  call random_number(",
+                        "  call c19_seed()\n  call random_number(", 1)
+    seeder = ("subroutine c19_seed()\n  implicit none\n  integer :: k, i\n"
+              "  integer, allocatable :: s(:)\n  call random_seed(size=k)\n"
+              "  allocate(s(k))\n  do i = 1, k\n    s(i) = %d + 7919 * i\n"
+              "  end do\n  call random_seed(put=s)\nend subroutine c19_seed"
+              "\n" % seed)
+    ok, err = fx.compile_f(wd, [("c19_seed.f90", seeder),
+                                ("harness.f90", hsrc)], exe="harness.x",
                            extra=["tl_k.o", "adj_k.o"])
     if not ok:
         res["direct"].append(dict(
@@ -253,14 +267,9 @@ def evaluate(spec, feats, part, wd):
                 # inner products agree to 6 digits: ill-conditioned sums of
                 # the generated kernel (values grow like 4**n), not PSyAD
                 part.count("harness_failed_by_rounding_only_not_judged")
-            elif per_n.get(HARNESS_N) is True:
-                res["direct"].append(dict(
-                    base, kind="harness_failed", mechanism=None,
-                    harness=test,
-                    what="PSyAD's harness prints %s although the adjoint "
-                    "is the transpose at n=20\nTL kernel (active %s):"
-                    "\n%s" % (out.strip()[:200], ",".join(active), text)))
             else:
+                # (the harness draws its own passive data, so it can reach a
+                # branch the two settings of oracle A did not)
                 fails.append((HARNESS_N, -1, haz, "harness_failed",
                               [out.strip()[:300]]))
         elif rc is None:
@@ -457,6 +466,8 @@ def main(ctx):
         "arithmetic traps (SIGFPE) inside the adjoint are counted, not judged",
         "deliberately non-linear kernels only exercise the refusal path; an "
         "acceptance of one is counted, never judged",
+        "PSyAD's harness is compiled as generated except for one inserted "
+        "call that seeds RANDOM_NUMBER (it draws unseeded data otherwise)",
         "hazard labels (mechanism) come from the source AST and the reversal "
         "formula in the user guide, and are only attached when every "
         "hazard-free size of the same kernel passed"]
